@@ -46,16 +46,40 @@ def ext_sets(env):
     return sorted(out)
 
 
+IMPLIES = {"INTERMEDIATE_PREPARATIONS": ["COMPONENT_MODIFIERS"]}   # documented in extensions.md / src/lib.rs
+
+
+def named_sets(env):
+    """every choice of extensions BY NAME (closed under the one documented implication) with the bit word the
+    implementation gives it.  'A set lacking X' is a choice that does not name X: if a flag's bit value silently
+    pulled in another extension, judging by bits would skip exactly the affected sets."""
+    out = []
+    for r in range(len(FLAGS) + 1):
+        for c in itertools.combinations(FLAGS, r):
+            names = set(c)
+            for n in c:
+                names.update(IMPLIES.get(n, []))
+            v = 0
+            for n in c:
+                v |= env[n]
+            out.append((frozenset(names), v))
+    return out
+
+
 def make_groups(env, sets):
-    g = {"all": sets, "noadv": [e for e in sets if not has(e, env["ADVANCED_UNITS"])]}
+    ns = named_sets(env)
+
+    def lacking(*flags, having=()):
+        return sorted({v for names, v in ns if not any(f in names for f in flags) and all(h in names for h in having)})
+
+    g = {"all": sets, "noadv": lacking("ADVANCED_UNITS")}
     for fam in cg.FAMILIES:
         x = env[cg.FAMILY_FLAG[fam]]
         if fam == "intermediate":
-            m = env["COMPONENT_MODIFIERS"]
-            g["lack_intermediate_noM"] = [e for e in sets if not has(e, m)]
-            g["lack_intermediate_M"] = [e for e in sets if has(e, m) and not has(e, x)]
+            g["lack_intermediate_noM"] = lacking("COMPONENT_MODIFIERS")
+            g["lack_intermediate_M"] = lacking(cg.FAMILY_FLAG[fam], having=("COMPONENT_MODIFIERS",))
         else:
-            g["lack_" + fam] = [e for e in sets if not has(e, x)]
+            g["lack_" + fam] = lacking(cg.FAMILY_FLAG[fam])
         g["pair_" + fam] = [0, x]
     return g
 
